@@ -28,10 +28,10 @@ func retainedOutputs(e error) string {
 }
 
 func runC12(c *core.Ctx, r *core.Result) {
-	p := plan{fullDepth: 3, coreDepth: 4, strDepth: 1, alphabet: tm.REG}
+	p := plan{fullDepth: 3, coreDepth: 4, strDepth: 1, alphabet: tm.REG, aliasSides: true}
 	hops := 2
 	if c.Thorough() {
-		p = plan{fullDepth: 4, coreDepth: 5, strDepth: 2, alphabet: tm.REG}
+		p = plan{fullDepth: 4, coreDepth: 5, strDepth: 2, alphabet: tm.REG, aliasSides: true}
 		hops = 3
 	}
 	r.Bounds = fmt.Sprintf("%s; stages local and after hops 1..%d between knowing processes", p, hops)
